@@ -220,6 +220,26 @@ Proof.
   rewrite cached_txs. apply ole_cache_origin.
 Qed.
 
+Lemma sim_read_obs s r a k : R s r -> R (read_obs s a k) r.
+Proof.
+  intros HR. unfold read_obs. pose proof (sim_read_state s r a k HR) as HR1.
+  apply (R_le _ _ r HR1).
+  apply le_intro; try reflexivity; try apply auxeq_refl.
+  - intros x; apply dle_refl.
+  - intros x. split; [|auto]. unfold lookrel. rewrite lookup_with_out. destruct (lookup _ x); [apply ole_refl|exact I].
+Qed.
+
+(** what the two reads return is what the reference holds / what the tx started with *)
+Lemma reads_see_reference s r a k :
+  R s r -> read_vals s a k =
+           match r_accs r a with Some _ => (r_stor r a k, stor (txs s) a k) | None => (0, 0) end.
+Proof.
+  intros HR. unfold read_vals. pose proof (R_acc s r HR a) as Ha. pose proof (R_sto s r HR a k) as Hs.
+  destruct (lookup s a) as [o|] eqn:Hl, (r_accs r a); try contradiction; [|reflexivity].
+  rewrite Hs. f_equal. destruct (R_good s r HR a o Hl) as (_&G2&_). unfold comm.
+  destruct (origin o k) as [w|] eqn:Ho; [apply (G2 k w Ho)|reflexivity].
+Qed.
+
 Lemma sim_touch s r a : R s r -> R (touch s a) r.
 Proof.
   intros HR. unfold touch. assert (HR1 : R (cached s a) r) by (apply sim_cached; exact HR).
